@@ -446,7 +446,14 @@ def run_duo14(case):
     return session.run_duo(case, lambda: [coherence_monitor()])
 
 
-KINDS = {"duo": run_duo14, "session": run_session14, "scripted": run_scripted, "realpool": run_realpool, "cadence": run_cadence}
+def run_cross14(case):
+    """A checkpoint written with / without clustering (or another cadence, particle count) resumed by a fresh clustering sampler: labels and modes
+    coherent at every kernel entry of the resumed run."""
+    from mc import session
+    return session.run_cross_resume(case, lambda: [coherence_monitor()])
+
+
+KINDS = {"cross": run_cross14, "duo": run_duo14, "session": run_session14, "scripted": run_scripted, "realpool": run_realpool, "cadence": run_cadence}
 
 
 def plan(ctx):
@@ -497,4 +504,7 @@ def plan(ctx):
            for a, b in (({}, {"target": "gauss"}), ({"cluster_every": 2}, {"cluster_every": 3, "sample": "rwm"}), ({"n_max_clusters": 2}, {"target": "unequal", "normalize": False, "d": 1}))
            for sh in range(2)]
     ctx.explore("two-samplers-interleaved", duo)
+    from mc import session as _s2
+    xb = dict(n_particles=24, d=2, n_total=72, eval="scalar", clustering=True, target="bimodal")
+    ctx.explore("resume-with-other-options", [{"kind": "cross", "cfg": xb, "pair": list(pr), "base": ctx.seed + b} for pr in _s2.CROSS if pr[1].get("clustering", True) for b in ((0, 5) if th else (0,))])
     agg = ctx.explore("cadence-and-resume", c)
